@@ -506,9 +506,9 @@ theorem trE_noLit : NoLitNames trE := by
   intro s hs
   simp only [trE, lookup]
   split
-  · rename_i h; subst h; simp [parseLit] at hs
+  · rename_i h; subst h; exact absurd hs (by decide)
   · split
-    · rename_i h; subst h; simp [parseLit] at hs
+    · rename_i h; subst h; exact absurd hs (by decide)
     · rfl
 
 example : WFx eDiv ∧ WFx eSqrt ∧ WFx eDeep ∧ WFx eType := by simp only [eDiv, eSqrt, eDeep, eType, WFx]; decide
